@@ -317,3 +317,72 @@ pub fn use_briefly(b: &mut Built, ops: &mut Vec<&'static str>) -> std::result::R
     }
     Ok(())
 }
+
+/// Deliver one item on the driver-stocked queue (if the driver has one) and consume it through the
+/// public API, so that feature-gated queue mechanisms are exercised on that queue as well.
+pub fn exercise_stocked(b: &mut Built, dev: &std::rc::Rc<std::cell::RefCell<CmdDev>>, ops: &mut Vec<&'static str>, negotiated: u64) -> std::result::Result<(), (String, Error)> {
+    match b {
+        Built::Console(x) => {
+            for _ in 0..2 {
+                if dev.borrow_mut().complete_manual(0, b"ok") {
+                    ops.push("recv(true) x2");
+                    for _ in 0..2 {
+                        let r = x.recv(true).map_err(|e| ("recv".to_string(), e))?;
+                        if r.is_none() {
+                            return Err(("recv returned None after the device delivered a chunk".into(), Error::NotReady));
+                        }
+                    }
+                }
+            }
+        }
+        Built::Input(x) => {
+            for _ in 0..2 {
+                if dev.borrow_mut().complete_manual(0, &[1, 0, 2, 0, 3, 0, 0, 0]) {
+                    ops.push("pop_pending_event");
+                    if x.pop_pending_event().is_none() {
+                        return Err(("pop_pending_event returned None after the device delivered an event".into(), Error::NotReady));
+                    }
+                }
+            }
+        }
+        Built::Net(x) => {
+            let hdr = if negotiated & (1 << 32) != 0 { 12 } else { 10 };
+            for _ in 0..2 {
+                let mut f = vec![0u8; hdr];
+                f.extend_from_slice(&[9u8; 60]);
+                if dev.borrow_mut().complete_manual(0, &f) {
+                    ops.push("receive+recycle");
+                    let rb = x.receive().map_err(|e| ("receive".to_string(), e))?;
+                    if rb.packet_len() != 60 {
+                        return Err((format!("received packet_len {} for a 60-byte frame behind a {}-byte header", rb.packet_len(), hdr), Error::IoError));
+                    }
+                    x.recycle_rx_buffer(rb).map_err(|e| ("recycle_rx_buffer".to_string(), e))?;
+                }
+            }
+        }
+        Built::Sound(x) => {
+            for _ in 0..2 {
+                if dev.borrow_mut().complete_manual(1, &[0, 0x11, 0, 0, 5, 0, 0, 0]) {
+                    ops.push("latest_notification");
+                    x.latest_notification().map_err(|e| ("latest_notification".to_string(), e))?;
+                }
+            }
+        }
+        Built::Socket(x) => {
+            // a credit update for a connection that does not exist: ignored, buffer returned
+            let mut p = vec![0u8; 44];
+            p[0] = 2;
+            p[8..16].copy_from_slice(&0x1_0000_0003u64.to_le_bytes());
+            p[28] = 1;
+            p[30] = 6;
+            for _ in 0..2 {
+                if dev.borrow_mut().complete_manual(0, &p) {
+                    ops.push("poll");
+                    x.poll().map_err(|e| ("poll".to_string(), e))?;
+                }
+            }
+        }
+        _ => {}
+    }
+    Ok(())
+}
